@@ -22,6 +22,11 @@ fn plain_spec(ident: usize, seq: u64, size: usize) -> RecSpec {
     }
 }
 
+/// A table filter for the requester: rejects records whose sequence number is a multiple of 4.
+fn seq_filter(e: &Enr) -> bool {
+    e.seq() % 4 != 0
+}
+
 fn fmt_ds(ds: &[u64]) -> String {
     format!("{:?}", ds)
 }
@@ -77,8 +82,38 @@ pub fn run_case(idents: &[Ident], idx: u64, rng: &mut Rng, thorough: bool, hist:
         let l_enr = recs.list[l_rec].enr.clone();
         let mut ca = base_config(0);
         ca.max_nodes_response(a_max);
+        // configurations the statement does not depend on: the lifetime of a ban (None = for ever),
+        // a table filter of the requester (it decides what enters the routing table, not what a
+        // responder may send), the responder's IP address on the permit list (node bans still apply)
+        let ban_cfg = rng.below(3);
+        match ban_cfg {
+            0 => {
+                ca.ban_duration(None);
+            }
+            1 => {
+                ca.ban_duration(Some(std::time::Duration::from_secs(600)));
+            }
+            _ => {}
+        }
+        let with_table_filter = rng.chance(1, 3);
+        if with_table_filter {
+            ca.table_filter(seq_filter);
+        }
+        let permit_ip = rng.chance(1, 4);
         let mut a = Svc::new(l_enr.clone(), idents[l].key(), ca.build()).await;
         ban_clear();
+        if permit_ip {
+            let mut list = discv5::PermitBanList::default();
+            list.permit_ips.insert(contactable(IpMode::Ip4, &p_enr).unwrap().ip());
+            discv5::verif::filter::permit_ban_reset(list);
+        }
+        hist.add(&format!("c11:cfg_ban_{}", ["forever", "10min", "default"][ban_cfg as usize]));
+        if with_table_filter {
+            hist.add("c11:cfg_table_filter");
+        }
+        if permit_ip {
+            hist.add("c11:cfg_responder_ip_permitted");
+        }
         a.s.discv5.add_enr(p_enr.clone()).expect("peer record accepted");
         let p_sock = contactable(IpMode::Ip4, &p_enr).unwrap();
         let p_addr = NodeAddress { socket_addr: p_sock, node_id: idents[p].node_id() };
@@ -213,7 +248,7 @@ pub fn run_case(idents: &[Ident], idx: u64, rng: &mut Rng, thorough: bool, hist:
         } else {
             let rec_of = |recs: &mut Recs, rng: &mut Rng, cat: u64| -> Option<usize> {
                 match cat {
-                    0 | 1 | 2 if !on.is_empty() => Some(recs.get(&plain_spec(*rng.pick(&on), 1, 0))),
+                    0 | 1 | 2 if !on.is_empty() => Some(recs.get(&plain_spec(*rng.pick(&on), *rng.pick(&[1u64, 1, 4]), 0))),
                     3 if !off.is_empty() => Some(recs.get(&plain_spec(*rng.pick(&off), 1, 0))),
                     4 => Some(p_rec),
                     5 => Some(l_rec),
